@@ -2,6 +2,7 @@
 //! (trace + wire frames + snapshots); it never looks inside h2.
 
 pub mod api;
+pub mod reset;
 pub mod snap;
 pub mod wire;
 
